@@ -68,23 +68,33 @@ def check_result(ctx, case, entry, opts, as_ir, m2, wf_batch, stats, base=None):
         if base is None:
             return []
         return ["C04" + k[3:] for k in K.known_class_by_variant(case, base, entry, opts, as_ir, still_bad)]
-    # a graph output that lost its declared type (the checker failure and the signature change below are its consequences)
-    t0 = {o.name: o.type.tensor_type.elem_type for o in case.model.graph.output if o.type.HasField("tensor_type")}
-    lost = [o.name for o in m2.graph.output if t0.get(o.name) and not (o.type.HasField("tensor_type") and o.type.tensor_type.elem_type)]
+    # a graph output that lost its declared type or the shape field of it (the checker failure and the signature change below are
+    # its consequences)
+    t0 = {o.name: (o.type.tensor_type.elem_type, o.type.tensor_type.HasField("shape")) for o in case.model.graph.output if o.type.HasField("tensor_type")}
+
+    def _lost(mm):
+        res = []
+        for o in mm.graph.output:
+            want = t0.get(o.name)
+            if want and want[0]:
+                tt = o.type.tensor_type if o.type.HasField("tensor_type") else None
+                if tt is None or not tt.elem_type or (want[1] and not tt.HasField("shape")):
+                    res.append(o.name)
+        return res
+    lost = _lost(m2)
     if lost:
-        stage = K.attribute_stage(case, entry, opts, as_ir,
-                                  lambda mm: any(not (o.type.HasField("tensor_type") and o.type.tensor_type.elem_type) for o in mm.graph.output))
+        stage = K.attribute_stage(case, entry, opts, as_ir, lambda mm: bool(_lost(mm)))
         if stage == "pipeline":
             # which pass of the real pipeline drops the declared type
             try:
                 from harness import c03_passes as P
                 for pname, _b, a, _m in P.observe(case.model, opts):
-                    if a is not None and any(t0.get(o.name) and not (o.type.HasField("tensor_type") and o.type.tensor_type.elem_type) for o in a.graph.output):
+                    if a is not None and _lost(a):
                         stage = pname
                         break
             except Exception:
                 pass
-        ctx.violation(f"C04:graph-output-type-lost:{stage}", f"{entry} (opts={opts}): graph outputs {lost} lost their declared type; the result fails onnx.checker",
+        ctx.violation(f"C04:graph-output-type-lost:{stage}", f"{entry} (opts={opts}): graph outputs {lost} lost their declared type / shape; the result fails onnx.checker",
                       doc({"outputs": lost}))
         stats["violations"] += 1
         return
@@ -98,6 +108,8 @@ def check_result(ctx, case, entry, opts, as_ir, m2, wf_batch, stats, base=None):
         except Exception:
             cul = K.culprit(case.model, m2)
         structural = K.known_structural_class(case.model, m2)
+        if structural is None and "in initializer but not in graph input" in str(e) and case.model.ir_version < 4:
+            structural = "ir-version-lt-4:lifted-constant-is-an-initializer-that-is-not-a-graph-input"
         kc = known_class(_checker_fails) if structural is None else []
         if structural is not None:
             ctx.violation("C04:" + structural, f"result of {entry} fails onnx.checker: {str(e)[:200]}", doc({"checker": str(e)[:300]}))
@@ -162,7 +174,14 @@ def check_result(ctx, case, entry, opts, as_ir, m2, wf_batch, stats, base=None):
                         # ... unless the optimized model no longer DEPENDS on the initializer-input where the original does: a
                         # consumer of the default was evaluated at optimization time (whatever value it was given)
                         lost = _dependence_lost(od0, R.run_ort(case.model, full)[1], od2 if sd2 == "ok" else None, R.run_ort(m2, full))
-                        if lost is not None:
+                        fams = _rewrite_rule_families(case, [n for n, _, _ in case.overridable], full, opts) if lost is not None and entry != "fold_constants" else []
+                        for fam in fams:
+                            ctx.violation(f"C04:initializer-input:rewrite-rule-reads-default:{fam}",
+                                          f"{entry}: a rewrite rule ({fam}) treated the default of an initializer-input as a constant (output {lost} no "
+                                          f"longer depends on it)", doc({"override": {k: np.asarray(v).tolist() for k, v in ov.items()}, "stage": "rewrite"}))
+                        if fams:
+                            stats["violations"] += 1
+                        elif lost is not None:
                             names = [n for n, _, _ in case.overridable]
                             ops = ",".join(_changed_consumers(case.model, m2, names) or ["unknown"])
                             ctx.violation(f"C04:initializer-input:folded:generic:{ops}",
@@ -174,7 +193,7 @@ def check_result(ctx, case, entry, opts, as_ir, m2, wf_batch, stats, base=None):
                         dd = R.compare_outputs(a, b, case.exact)
                         if dd is not None:
                             names = [n for n, _, _ in case.overridable]
-                            fams = _rewrite_rule_families(case, names, full) if entry != "fold_constants" else []
+                            fams = _rewrite_rule_families(case, names, full, opts) if entry != "fold_constants" else []
                             if fams:
                                 # the default rewrite rules alone (no folding) already bake the default in: a constant-matching rule
                                 # read const_value of the initializer-input
@@ -209,18 +228,35 @@ _RULE_FAMILY = {"Add": "noop", "Sub": "noop", "Mul": "noop", "Div": "noop", "Min
                 "Slice": "collapse-slice", "Expand": "expand", "Reshape": "reshape", "ScatterND": "scatternd-static"}
 
 
-def _rewrite_rule_families(case, names, full):
-    """[] unless rewrite() alone (default rules, no constant folding) already makes the model differ for the override values;
-    then the rule families of the consumers of the initializer-inputs that rewrite() changed."""
+def _rewrite_rule_families(case, names, full, opts=None):
+    """[] unless the default rewrite rules bake the default in: rewrite() alone (no constant folding) already makes the model
+    differ for the override values, or - inside the real pipeline, observed pass by pass - a RewritePass step whose
+    (before, after) pair differs for them.  Then the rule families of the consumers of the initializer-inputs it changed."""
+    def differs(a, b):
+        s0, o0 = R.run_ort(a, full)
+        s1, o1 = R.run_ort(b, full)
+        return s0 == "ok" and (s1 != "ok" or any(R.compare_outputs(x, y, case.exact) is not None for x, y in zip(o0, o1)))
+    pair = None
     try:
         m3 = R.apply_entry("rewrite", case.model)
+        if differs(case.model, m3):
+            pair = (case.model, m3)
     except Exception:
+        pass
+    if pair is None:
+        try:
+            from harness import c03_passes as P
+            for pname, b, a, modified in P.observe(case.model, opts):
+                if b is None or a is None or b.SerializeToString(deterministic=True) == a.SerializeToString(deterministic=True):
+                    continue
+                if pname == "RewritePass" and differs(b, a):
+                    pair = (b, a)
+                    break
+        except Exception:
+            pass
+    if pair is None:
         return []
-    s0, o0 = R.run_ort(case.model, full)
-    s3, o3 = R.run_ort(m3, full)
-    if s0 != "ok" or (s3 == "ok" and all(R.compare_outputs(a, b, case.exact) is None for a, b in zip(o0, o3))):
-        return []
-    ops = _changed_consumers(case.model, m3, names) or ["unknown"]
+    ops = _changed_consumers(pair[0], pair[1], names) or ["unknown"]
     return sorted({_RULE_FAMILY.get(op, op) for op in ops})
 
 
